@@ -75,6 +75,9 @@ package task
 //@ func (*Executor).runDeps$1
 //@   requires tok == 0 -- a goroutine started by errgroup.Go holds no concurrency slot
 //@   site RunTask#0 requires arg2.Task == d.Task && arg2.Vars == d.Vars && arg2.Silent == d.Silent && arg2.Indirect    [C01,C02]
+// (the call carries the entry's own Vars object, nil when it passes none: GetTask gives a call without variables
+// a Vars of its own to put MATCH into - one object shared by every such call would hand one call's MATCH to another)
+//@   site RunTask#0 requires arg2.Vars == d.Vars                                                       [C11,C18]
 //@   site RunTask#1 ghost set depCallOK(d) if result == nil
 //@   ensures result == nil ==> depCallOK(d)                                                            [C01,C03]
 //@   site RunTask#1 ghost depErr := result
@@ -328,6 +331,7 @@ package task
 //@   ensures  tok == old(tok)                                                                          [C07]
 //@   site (*Executor).RunTask#0 requires arg2.Task == t.Cmds[i].Task && arg2.Vars == t.Cmds[i].Vars
 //@        && arg2.Silent == t.Cmds[i].Silent && arg2.Indirect                                          [C02]
+//@   site (*Executor).RunTask#0 requires arg2.Vars == t.Cmds[i].Vars                                  [C11,C18]
 //@   init shFailed := false
 //@   init shExit := false
 //@   init nestFailed := false
@@ -362,6 +366,9 @@ package task
 // the text that is rendered (now, with EXIT_CODE) and then run is that of entry i of the COMPILED task - the list
 // the index refers to (loops have been unrolled and null entries dropped there, not in the definition)
 //@   site templater.ReplaceWithExtra#0 requires arg0 == t.Cmds[i].Cmd                                   [C14]
+// ... with variables that exist: the templater dereferences them (resolving the variables can fail at this point -
+// a dynamic variable is evaluated again when its command text differs - and a failure leaves none)
+//@   site templater.ReplaceWithExtra#0 requires arg1.Vars != nil                                        [C16,C14]
 
 //@ func (*Executor).areTaskPreconditionsMet
 //@   modifies heap, fs_exists, fs_ver
@@ -441,6 +448,8 @@ package task
 //@   trusted
 //@   modifies heap, fs_exists, fs_ver
 //@   preserves $RUNDATA
+//@   nilable result.0
+//@   ensures result.1 == nil ==> result.0 != nil
 //@   blocks
 
 // ---- C12: the effects a query or a dry run must not have are confined to functions under contract ---------
@@ -491,13 +500,27 @@ package task
 //@   site fingerprint.NewSourcesChecker#0 requires arg0 == (t.Method != "" ? t.Method : e.Taskfile.Method)
 //@        && arg1 == e.TempDir.Fingerprint && arg2 == e.Dry                                           [C04,C05,C12]
 
+//@ ghost var statusErr error scratch
 //@ func (*Executor).Status
-
 //@   site fingerprint.WithDry#0 requires arg0 == e.Dry                                                [C12]
+// an unknown or ambiguous name is reported by --status exactly as by a run: the error of the lookup is returned AS
+// IT IS (the exit status is read off the error's own class - 200, 203 - by a plain type assertion in main: a
+// wrapped error, however well it unwraps, exits 1)
+//@   init statusErr := nil
+//@   site (*Executor).CompiledTask#1 ghost statusErr := result.1
+//@   loop 1 invariant statusErr == nil                                                               [C15,C13]
+//@   ensures statusErr != nil ==> result == statusErr                                                 [C15,C13]
 
 // Listing tasks for an editor (--list --json) is a query: it must never write fingerprints.
 //@ func (*Executor).ToEditorOutput$1
 //@   site fingerprint.WithDry#0 requires arg0                                                         [C12,C04,C05]
+// ... and the dry option is what decides: the checker is built by IsTaskUpToDate from the options of THIS call; one
+// built elsewhere (with the executor's own dry setting, which is off under --list) is never handed in
+//@   nosite fingerprint.WithSourcesChecker                                                            [C12,C04]
+//@   nosite fingerprint.WithStatusChecker                                                             [C12,C04]
+//@   nosite fingerprint.NewSourcesChecker                                                             [C12,C04]
+//@   nosite fingerprint.NewChecksumChecker                                                            [C12,C04]
+//@   nosite fingerprint.NewTimestampChecker                                                           [C12,C04]
 
 // Task lookup (C15 examines it); frame only here: it may attach MATCH to the call's variables.
 //@ func (*Executor).GetTask
@@ -584,6 +607,11 @@ package task
 //@   site slices.Concat#0 requires arg0[1] == task.Aliases                                                             [C15]
 //@ func (*Executor).setupFuzzyModel
 //@   ensures e.Taskfile != nil ==> e.fuzzyModel != nil                                                                 [C15]
+// the model learns the names and aliases AS THEY ARE WRITTEN: what it suggests is offered to the user as a task
+// name, so it has to be one (a list that is re-spelt - lower-cased, trimmed - between collecting and training
+// yields suggestions that do not exist)
+//@   site (*Model).Train#0 requires arg1 == words                                                                      [C15]
+//@   nosite store:[]string                                                                                             [C15]
 
 // ---- C15: watch mode runs what was asked for ---------------------------------------------------------------------
 // The watcher starts one run per requested call, under the requested name: it does not resolve the names itself
@@ -712,6 +740,10 @@ package task
 //@   site append#4 requires arg1[0].Silent == dep.Silent                                                       [C01]
 //@   site append#5 requires arg1[0].Silent == dep.Silent                                                       [C01]
 //@   ensures result.1 == nil ==> fresh(result.0)                                                               [C11]
+// the string lists of the compiled task (dotenv, sources ... ) may BE the lists of the definition: the templater
+// hands its argument back, uncopied, once the cache carries an error (and the fast compile goes on after one). They
+// are replaced as a whole or left alone, never edited element by element
+//@   nosite store:[]string                                                                                     [C11,C18]
 // The attributes of the compiled task are those of its DEFINITION; what a call passes reaches it through the
 // variables only. (The key of run: when_changed is computed from the compiled task: an attribute taken from the
 // call - its silent flag, say - would make two calls with the same variables count as different.)
@@ -744,6 +776,16 @@ package task
 //@   modifies cells                                                                                             [C11,C18]
 //@   loop 1 invariant newResult == nil || fresh(arr(newResult))     -- the list being built is this call's own       [C11,C18]
 //@   loop 2 invariant newResult == nil || fresh(arr(newResult))                                                      [C11,C18]
+// ---- C19: loop items are DATA - the words of a variable's value, file names, matrix cells, list entries (the
+// strings of the task were templated when the command was copied): each is bound to ITEM as it is. An item that
+// went through the template engine here would have the text a value happens to contain ("{{", from the environment,
+// a file name, the output of a command) executed as a template before shellQuote ever sees it
+//@ func itemsFromFor
+//@   sweep                                                                                                      [C16]
+//@   nosite templater.Replace                                                                                   [C19]
+//@   nosite templater.ReplaceWithExtra                                                                          [C19]
+//@   nosite templater.ReplaceVar                                                                                [C19]
+//@   nosite templater.ReplaceVars                                                                               [C19]
 //@ func resolveMatrixRefs$1
 //@   modifies github.com/go-task/task/v3/internal/templater.*, resolved.om, om_has, om_val, om_len, om_key     [C11,C18]
 // every row, literal or ref, is put into the copy during ITS OWN iteration, under its own key: the copy keeps
